@@ -146,6 +146,12 @@ func (ds *dataStore) enterListMultiBlock(keyNames []string) (ws *wakeSignal) {
 	return ds.waitingClients.enterMultiWait(keyNames)
 }
 
+func (ds *dataStore) reenterListBlock(ws *wakeSignal) {
+	ds.mu.Lock()
+	defer ds.mu.Unlock()
+	ds.waitingClients.reenterWait(ws)
+}
+
 func (ds *dataStore) leaveListBlock(ws *wakeSignal) {
 	ds.mu.Lock()
 	defer ds.mu.Unlock()
